@@ -226,8 +226,23 @@ func genAdmPlan(tp *simrt.Tape, seed uint64, tier string) any {
 	p.Public = p.Faulty && tp.Chance(1, 3)
 	const maxOps = 14
 	total := 0
-	family := tp.Weighted(6, 3, 2)
+	family := tp.Weighted(6, 3, 2, 1)
 	switch family {
+	case 3:
+		// a publicly listed group whose description is tightened while the
+		// periodic update is looking at it and somebody arrives
+		p.Faulty, p.Public = true, true
+		p.Cfg = admCfg{Max: 0}
+		p.Actors = append(p.Actors, admActor{Role: []string{"observe", "op"}[tp.Draw(2)], ID: 0, Ops: []admOp{{K: "join"}}})
+		p.Actors = append(p.Actors, admActor{Role: "op", ID: 1, Ops: []admOp{{K: "update", After: 1}, {K: "update"}}})
+		tight := admCfg{Max: 1}
+		switch tp.Draw(3) {
+		case 1:
+			tight = admCfg{HasExp: true, ExpMin: -5}
+		case 2:
+			tight = admCfg{HasNB: true, NBMin: 5}
+		}
+		p.Actors = append(p.Actors, admActor{Role: []string{"observe", "present"}[tp.Draw(2)], ID: 2, Ops: []admOp{{K: "rewrite", Cfg: &tight, After: 1}, {K: "join"}}})
 	case 1:
 		// the autolock clause: an operator joins, unlocks and leaves while
 		// others arrive
